@@ -1,4 +1,5 @@
 import CoapVerif.Model.Observe
+import CoapVerif.Model.ObserveKey
 import CoapVerif.Util
 /- Line-protocol driver for C11: replays an event history (harness/observe.c documents the format) through M.
    Lines with a block-wise resource (`R=…b<start>[/<szx>]…` or `B…`, events `blk:…`) are NOT modelled: M has no lg_xmit and no
@@ -10,7 +11,8 @@ namespace Coap.Driver.Observe
 open Coap Coap.Observe
 
 def hex2 (n : Nat) : String := String.ofList [hexDigit (n / 16 % 16), hexDigit (n % 16)]
-def showTok (c tok : Nat) : String := hex2 (160 + c) ++ hex2 tok
+/-- harness/observe.c: token index t < 128 is the 2 bytes (0xA0 + c, t), t >= 128 the 2 bytes (0x9F, t) whichever client sends it -/
+def showTok (c tok : Nat) : String := if tok ≥ 128 then "9f" ++ hex2 tok else hex2 (160 + c) ++ hex2 tok
 def showKind : Kind → String
   | .con => "C" | .non => "N" | .ack => "A"
 def showObs : Option Nat → String
@@ -63,18 +65,40 @@ def parseResList (id : Nat) : List String → Option (List Res)
 def parseKind (s : String) : Option Bool :=
   if s = "C" then some true else if s = "N" then some false else none
 
-def parseReq (f : List String) (ncli nres : Nat) : Option (Nat × Nat × Nat × Nat × Bool × Nat) :=
-  match f with
-  | [c, r, t, q, k, mid] => do
+/-- the options of the request as harness/observe.c (send_request) builds it, in wire order: ETag(s) by variant x, Observe,
+    Uri-Path "r<r>", Uri-Query by variant q, Size1 by variant x (lines with a Block2 option are block-wise: not replayed) -/
+def reqOpts (obs : Option Nat) (r q x : Nat) : List ReqOpt :=
+  (if x = 1 ∨ x = 3 then [{ num := 4, val := [0x11, 0x22] }] else []) ++
+  (if x = 2 ∨ x = 5 then [{ num := 4, val := [0x33] }] else []) ++
+  (if x = 3 then [{ num := 4, val := [0x44, 0x55, 0x66, 0x77, 0x88] }] else []) ++
+  (match obs with
+   | some 0 => [{ num := 6, val := [] }]
+   | some v => [{ num := 6, val := [v] }]
+   | none => []) ++
+  [{ num := 11, val := [114, 48 + r] }] ++
+  (if q = 1 then [{ num := 15, val := [97, 61, 49] }]
+   else if q = 2 then [{ num := 15, val := [98, 61, 50] }]
+   else if q = 3 then [{ num := 15, val := [97] }, { num := 15, val := [98] }]
+   else if q = 4 then [{ num := 15, val := [97, 15, 0, 98] }]
+   else []) ++
+  (if x = 4 then [{ num := 60, val := [] }] else []) ++
+  (if x = 5 then [{ num := 60, val := [2] }] else [])
+
+/-- `c:r:t:q:k:mid[:x]` → (c, r, token index, cache key of the request (Model/ObserveKey.lean), CON?, mid) -/
+def parseReq (obs : Option Nat) (f : List String) (ncli nres : Nat) : Option (Nat × Nat × Nat × Nat × Bool × Nat) :=
+  let go (c r t q k mid : String) (x : Nat) : Option (Nat × Nat × Nat × Nat × Bool × Nat) := do
     let c ← c.toNat?; let r ← r.toNat?; let t ← t.toNat?; let q ← q.toNat?; let k ← parseKind k; let mid ← mid.toNat?
-    if c < ncli ∧ r < nres ∧ t ≤ 255 ∧ q ≤ 2 ∧ mid ≤ 65535 then some (c, r, t, q, k, mid) else none
+    if c < ncli ∧ r < nres ∧ t ≤ 255 ∧ q ≤ 4 ∧ mid ≤ 65535 ∧ x ≤ 5 then some (c, r, t, obsKey (reqOpts obs r q x), k, mid) else none
+  match f with
+  | [c, r, t, q, k, mid] => go c r t q k mid 0
+  | [c, r, t, q, k, mid, x] => do let x ← x.toNat?; go c r t q k mid x
   | _ => none
 
 def parseEvent (s : String) (ncli nres : Nat) : Option Event :=
   match s.splitOn ":" with
-  | "reg" :: f => (parseReq f ncli nres).map fun (c, r, t, q, k, m) => .reg c r t q k m
-  | "can" :: f => (parseReq f ncli nres).map fun (c, r, t, q, k, m) => .can c r t q k m
-  | "get" :: f => (parseReq f ncli nres).map fun (c, r, t, q, k, m) => .get c r t q k m
+  | "reg" :: f => (parseReq (some 0) f ncli nres).map fun (c, r, t, key, k, m) => .reg c r t key k m
+  | "can" :: f => (parseReq (some 1) f ncli nres).map fun (c, r, t, key, k, m) => .can c r t key k m
+  | "get" :: f => (parseReq none f ncli nres).map fun (c, r, t, key, k, m) => .get c r t key k m
   | ["chg", r] => do let r ← r.toNat?; if r < nres then some (.chg r) else none
   | ["io"] => some (.adv 0)
   | ["adv", ms] => do let ms ← ms.toNat?; some (.adv ms)
